@@ -371,6 +371,9 @@ func (o *Object) NextElementBytes(dst *Iter) (name []byte, t Type, err error) {
 	dst.calcNext(false)
 	elemSize := dst.addNext
 	dst.calcNext(true)
+	if elemSize < 0 {
+		return nil, TypeNone, errors.New("element has negative offset")
+	}
 	if dst.off+elemSize > len(dst.tape.Tape) {
 		return nil, TypeNone, errors.New("element extends beyond tape")
 	}
